@@ -78,6 +78,32 @@ P = Pred({(p, q): p for p in (False, True) for q in (False, True)})
 Q = Pred({(p, q): q for p in (False, True) for q in (False, True)})
 
 
+def reduction(e: ast.AST) -> Optional[Tuple[str, ast.AST, Optional[object]]]:
+  """('all'|'any'|'sum', operand, axis) for np.all(X, axis=k) / jnp.any(X) / X.all(axis=k) / X.sum(axis=k)."""
+  if not isinstance(e, ast.Call):
+    return None
+  axis = None
+  for k in e.keywords:
+    if k.arg == 'axis':
+      axis = k.value.value if isinstance(k.value, ast.Constant) else (
+          -k.value.operand.value if isinstance(k.value, ast.UnaryOp) and isinstance(k.value.op, ast.USub)
+          and isinstance(k.value.operand, ast.Constant) else '?')
+  d = dotted(e.func) or ''
+  last = d.rsplit('.', 1)[-1] if d else (e.func.attr if isinstance(e.func, ast.Attribute) else '')
+  if last not in ('all', 'any', 'sum'):
+    return None
+  head = d.split('.')[0] if d else ''
+  if head in ('np', 'jnp', 'numpy', 'jax') and e.args:
+    if len(e.args) >= 2 and axis is None and isinstance(e.args[1], ast.Constant):
+      axis = e.args[1].value
+    return last, e.args[0], axis
+  if isinstance(e.func, ast.Attribute) and not (head in ('np', 'jnp', 'numpy')):
+    if e.args and axis is None and isinstance(e.args[0], ast.Constant):
+      axis = e.args[0].value
+    return last, e.func.value, axis
+  return None
+
+
 def parse_pred(e: ast.AST, role: Callable[[ast.AST], Optional[str]], env: Dict[str, ast.AST]) -> Pred:
   """Truth table of a numpy/jax boolean expression over operands A (candidate) and B."""
   if isinstance(e, ast.Name) and e.id in env:
@@ -101,8 +127,10 @@ def parse_pred(e: ast.AST, role: Callable[[ast.AST], Optional[str]], env: Dict[s
       return parse_pred(e.args[0], role, env) & parse_pred(e.args[1], role, env)
     if fn == 'logical_or' and len(e.args) == 2:
       return parse_pred(e.args[0], role, env) | parse_pred(e.args[1], role, env)
-    if fn in ('all', 'any') and e.args and isinstance(e.args[0], ast.Compare) and len(e.args[0].ops) == 1:
-      c = e.args[0]
+    red = reduction(e)
+    if red is not None and red[0] in ('all', 'any') and isinstance(red[1], ast.Compare) and len(red[1].ops) == 1:
+      fn = red[0]
+      c = red[1]
       l, r = role(c.left), role(c.comparators[0])
       if {l, r} != {'A', 'B'}:
         return Pred(None)
@@ -127,6 +155,85 @@ def parse_pred(e: ast.AST, role: Callable[[ast.AST], Optional[str]], env: Dict[s
           return ~(le_xy & le_yx)
         return Pred(None)  # any(<=), any(>=)
   return Pred(None)
+
+
+def flag_cfg(fn: ast.AST, flag: str, value: bool) -> cfgmod.CFG:
+  """CFG of `fn` restricted to the paths on which the boolean parameter `flag` has `value`."""
+  g = cfgmod.CFG(fn)
+
+  def forced(t: ast.AST) -> Optional[bool]:
+    # outcome of test t that is impossible under flag == value -> returns the branch label to drop
+    if isinstance(t, ast.Name) and t.id == flag:
+      return not value
+    if isinstance(t, ast.UnaryOp) and isinstance(t.op, ast.Not) and isinstance(t.operand, ast.Name) and t.operand.id == flag:
+      return value
+    if isinstance(t, ast.BoolOp) and isinstance(t.op, ast.And):
+      for v in t.values:
+        f = forced(v)
+        if f is True:  # conjunct is False under the assumption -> whole test cannot be True
+          return True
+    if isinstance(t, ast.BoolOp) and isinstance(t.op, ast.Or):
+      for v in t.values:
+        f = forced(v)
+        if f is False:  # disjunct is True -> whole test cannot be False
+          return False
+    return None
+  for tn in g.nodes:
+    if tn.kind == 'test':
+      imp = forced(tn.ast)
+      if imp is not None:
+        lab_drop = 'T' if imp else 'F'
+        for m_, lab in list(tn.succs):
+          if lab == lab_drop:
+            tn.succs.remove((m_, lab))
+            m_.preds.remove((tn, lab))
+  return g
+
+
+def unfold(e: ast.AST, node, g: cfgmod.CFG, rd: flow.ReachingDefs, flag: Optional[Tuple[str, bool]] = None, depth: int = 0) -> ast.AST:
+  """Replaces locals by their unique reaching definition (recursively); the flag parameter by its assumed value."""
+  import copy as _copy
+  if depth > 6:
+    return e
+
+  class U(ast.NodeTransformer):
+    def visit_Name(self, n):
+      if not isinstance(n.ctx, ast.Load):
+        return n
+      if flag is not None and n.id == flag[0]:
+        return ast.copy_location(ast.Constant(value=flag[1]), n)
+      ds = [d for d in rd.at(node, n.id)]
+      if len(ds) == 1 and ds[0].kind == 'assign' and ds[0].value is not None and ds[0].index is None and ds[0].node_id >= 0:
+        dn = g.nodes[ds[0].node_id]
+        if dn.id not in g_reach:
+          return n
+        return unfold(_copy.deepcopy(ds[0].value), dn, g, rd, flag, depth + 1)
+      return n
+  g_reach = {x.id for x in g.reachable([g.entry], include_starts=True)}
+  return U().visit(_copy.deepcopy(e) if depth == 0 else e)
+
+
+def simplify_bool(e: ast.AST) -> ast.AST:
+  """Constant-folds `True and X`, `False or X`, `not True` ... left behind by unfolding a flag."""
+  if isinstance(e, ast.BoolOp):
+    vals = [simplify_bool(v) for v in e.values]
+    if isinstance(e.op, ast.And):
+      if any(isinstance(v, ast.Constant) and v.value is False for v in vals):
+        return ast.Constant(value=False)
+      vals = [v for v in vals if not (isinstance(v, ast.Constant) and v.value is True)]
+    else:
+      if any(isinstance(v, ast.Constant) and v.value is True for v in vals):
+        return ast.Constant(value=True)
+      vals = [v for v in vals if not (isinstance(v, ast.Constant) and v.value is False)]
+    if not vals:
+      return ast.Constant(value=isinstance(e.op, ast.And))
+    return vals[0] if len(vals) == 1 else ast.BoolOp(op=e.op, values=vals)
+  if isinstance(e, ast.UnaryOp) and isinstance(e.op, ast.Not):
+    v = simplify_bool(e.operand)
+    if isinstance(v, ast.Constant) and isinstance(v.value, bool):
+      return ast.Constant(value=not v.value)
+    return ast.UnaryOp(op=ast.Not(), operand=v)
+  return e
 
 
 def run(ctx) -> None:
@@ -190,26 +297,38 @@ def r1_r2_service(ctx, svc, fi: FuncInfo) -> None:
             'no NaN test guards the candidate set: every comparison with NaN is False, so a trial whose '
             'objective is NaN is never dominated and is always reported as optimal',
             construct='nan-filter', func=fi.qualname)
-  # R2: sign flip
+  # R2: sign flip — an `if`/conditional expression whose test is `<goal> == ...GoalType.MINIMIZE` (possibly through a
+  # local alias) with a negated value in the MINIMIZE arm and the plain value in the other arm
+  def is_minimize(e: ast.AST) -> bool:
+    e = flow.resolve_local(fi.node, e)
+    return (dotted(e) or '').endswith('GoalType.MINIMIZE')
+
+  def negated(e: ast.AST) -> bool:
+    if isinstance(e, ast.UnaryOp) and isinstance(e.op, ast.USub):
+      return True
+    if isinstance(e, ast.BinOp) and isinstance(e.op, ast.Mult):
+      return any((isinstance(x, ast.UnaryOp) and isinstance(x.op, ast.USub)) or
+                 (isinstance(x, ast.Constant) and isinstance(x.value, (int, float)) and x.value < 0) for x in (e.left, e.right))
+    return False
+
+  def plain(e: ast.AST) -> bool:
+    return isinstance(e, (ast.Subscript, ast.Name, ast.Attribute))
   ok = False
   for n in ast.walk(fi.node):
-    if isinstance(n, ast.If) and isinstance(n.test, ast.Compare) and len(n.test.ops) == 1 \
-        and isinstance(n.test.ops[0], ast.Eq) and (dotted(n.test.comparators[0]) or '').endswith('GoalType.MINIMIZE'):
-      def neg(stmts):
-        for st in stmts:
-          if isinstance(st, ast.Assign):
-            v = st.value
-            if isinstance(v, ast.UnaryOp) and isinstance(v.op, ast.USub):
-              return True
-            if isinstance(v, ast.BinOp) and isinstance(v.op, ast.Mult) and any(
-                isinstance(s, ast.UnaryOp) and isinstance(s.op, ast.USub) or
-                (isinstance(s, ast.Constant) and isinstance(s.value, (int, float)) and s.value < 0)
-                for s in (v.left, v.right)):
-              return True
-        return False
-      def plain(stmts):
-        return any(isinstance(st, ast.Assign) and isinstance(st.value, (ast.Subscript, ast.Name, ast.Attribute)) for st in stmts)
-      ok = neg(n.body) and plain(n.orelse) and not neg(n.orelse)
+    if isinstance(n, (ast.If, ast.IfExp)) and isinstance(n.test, ast.Compare) and len(n.test.ops) == 1:
+      op = n.test.ops[0]
+      sides = [n.test.left, n.test.comparators[0]]
+      if not any(is_minimize(x) for x in sides) or not isinstance(op, (ast.Eq, ast.NotEq)):
+        continue
+      if isinstance(n, ast.IfExp):
+        t_arm, f_arm = [n.body], [n.orelse]
+      else:
+        t_arm = [st.value for st in n.body if isinstance(st, ast.Assign)]
+        f_arm = [st.value for st in n.orelse if isinstance(st, ast.Assign)]
+      if isinstance(op, ast.NotEq):
+        t_arm, f_arm = f_arm, t_arm
+      if any(negated(x) for x in t_arm) and any(plain(x) for x in f_arm) and not any(negated(x) for x in f_arm):
+        ok = True
   # column order: the objective vector is built by iterating the study's metric specs, so that
   # every trial's vector has the same column order
   vec_iters = []
@@ -278,16 +397,16 @@ def r3_service(ctx, fi: FuncInfo) -> None:
   red_axis = None
   negated = False
   for n in ast.walk(fi.node):
-    if isinstance(n, ast.Call) and (dotted(n.func) or '').endswith('.any') and n.args and isinstance(n.args[0], ast.Name) \
-        and n.args[0].id == mat:
-      for k in n.keywords:
-        if k.arg == 'axis' and isinstance(k.value, ast.Constant):
-          red_axis = k.value.value
+    red = reduction(n)
+    if red is not None and red[0] == 'any' and isinstance(red[1], ast.Name) and red[1].id == mat:
+      red_axis = red[2]
       for a in ancestors(n):
         if isinstance(a, ast.Call) and (dotted(a.func) or '').endswith('logical_not'):
           negated = True
         if isinstance(a, ast.UnaryOp) and isinstance(a.op, (ast.Invert, ast.Not)):
           negated = True
+        if isinstance(a, (ast.stmt,)):
+          break
   # matrix[outer][inner]; reducing axis 0 removes the outer variable -> candidate = inner variable
   cand_v = inner_v if red_axis == 0 else outer_v if red_axis in (1, -1) else None
 
@@ -404,27 +523,35 @@ def r3_xla(ctx) -> None:
   if fi is None:
     raise AnalysisError('xla_pareto._is_dominated not found')
   a, b = fi.params[0], fi.params[1]
-  env = {}
-  rets = []
-  for st in ast.walk(fi.node):
-    if isinstance(st, ast.Assign) and isinstance(st.targets[0], ast.Name):
-      env[st.targets[0].id] = st.value
-    if isinstance(st, ast.Return) and st.value is not None:
-      rets.append(st)
-  strict_ret = None
-  for r in rets:
-    for anc in ancestors(r):
-      if isinstance(anc, ast.If) and unparse(anc.test, 0) == 'strict' and r in anc.body:
-        strict_ret = r
-  if strict_ret is None:
-    raise AnalysisError('_is_dominated: strict return not found')
+  flag = next((p_ for p_ in fi.params if p_ == 'strict'), None)
+  if flag is None:
+    raise AnalysisError('_is_dominated: no `strict` parameter')
   role = lambda x: 'A' if unparse(x, 0) == a else 'B' if unparse(x, 0) == b else None
-  pred = parse_pred(strict_ret.value, role, env)
-  _report(ctx, 'xla_pareto._is_dominated (strict)', strict_ret, fi, pred, 'dominated')
+  for val, want in ((True, 'dominated'), (False, 'weak')):
+    g = flag_cfg(fi.node, flag, val)
+    rd = flow.ReachingDefs(g)
+    live = g.reachable([g.entry], include_starts=True)
+    rets = [n for n in g.nodes if n in live and n.kind == 'stmt' and isinstance(n.ast, ast.Return) and n.ast.value is not None]
+    if not rets:
+      raise AnalysisError(f'_is_dominated: no return reachable with strict={val}')
+    for r in rets:
+      e = simplify_bool(unfold(r.ast.value, r, g, rd, (flag, val)))
+      pred = parse_pred(e, role, {})
+      if want == 'dominated':
+        _report(ctx, 'xla_pareto._is_dominated (strict)', r.ast, fi, pred, 'dominated')
+      else:
+        ok = pred.table == {k: k[0] for k in DOM}
+        ctx.check(ok, 'R3', 'xla_pareto._is_dominated (non-strict)', r.ast, 'weakly dominated: all(y1 <= y2)',
+                  f'non-strict predicate has truth table {pred.table}, expected all(y1 <= y2)', construct='xla-weak', func=fi.qualname)
   # usage: vmap(None,0) then vmap(0,None) -> [first arg index, second arg index]; any over last axis; not
   f2 = mod.functions.get('_is_pareto_optimal_against')
   txt = unparse(f2.node, 0)
-  ok = '(None, 0), 0' in txt and '(0, None)' in txt and 'axis=-1' in txt and 'logical_not' in txt
+  neg = any((isinstance(x, ast.Call) and (dotted(x.func) or '').endswith('logical_not')) or
+            (isinstance(x, ast.UnaryOp) and isinstance(x.op, (ast.Invert, ast.Not))) for r in ast.walk(f2.node)
+            if isinstance(r, ast.Return) and r.value is not None for x in [flow.resolve_local(f2.node, r.value)])
+  reds = [reduction(x) for x in ast.walk(f2.node)]
+  any_last = any(r is not None and r[0] == 'any' and r[2] in (-1, 1) for r in reds)
+  ok = '(None, 0), 0' in txt and '(0, None)' in txt and any_last and neg
   ctx.check(ok, 'R3', 'xla_pareto._is_pareto_optimal_against orientation', f2.node,
             'matrix [candidate, baseline], any over the baseline axis, negated once',
             'the vmap axes / reduction axis / negation around _is_dominated no longer say "no baseline point dominates"',
@@ -432,56 +559,90 @@ def r3_xla(ctx) -> None:
   f3 = mod.functions.get('pareto_rank')
   if f3 is not None:
     t3 = unparse(f3.node, 0)
-    ctx.check('axis=1' in t3 and '(None, 0), 0' in t3 and '(0, None)' in t3, 'R3', 'xla_pareto.pareto_rank orientation', f3.node,
+    sums = [reduction(x) for x in ast.walk(f3.node)]
+    row_sum = any(r is not None and r[0] == 'sum' and r[2] in (1, -1) for r in sums)
+    ctx.check(row_sum and '(None, 0), 0' in t3 and '(0, None)' in t3, 'R3', 'xla_pareto.pareto_rank orientation', f3.node,
               'rank = row sum of the [candidate, other] domination matrix',
               'pareto_rank no longer counts the points dominating each candidate', construct='xla-rank', func=f3.qualname)
 
 
 def r3_naive(ctx) -> None:
   ci = ctx.index.need_class('vizier._src.pyvizier.multimetric.pareto_optimal.NaiveParetoOptimalAlgorithm')
-  # is_pareto_optimal_against: strict_dominating = any(point > against); optimal iff all(strict_dominating)
   f = ci.methods['is_pareto_optimal_against']
-  env = {}
-  loopv = None
-  for n in ast.walk(f.node):
-    if isinstance(n, ast.Assign) and isinstance(n.targets[0], ast.Name):
-      env[n.targets[0].id] = n.value
-    if isinstance(n, ast.For) and isinstance(n.target, ast.Tuple):
-      loopv = n.target.elts[1].id
   other = f.params[2] if len(f.params) > 2 else 'against'
-  role = lambda x: 'A' if unparse(x, 0) == loopv else 'B' if unparse(x, 0) == other else None
-  sd = env.get('strict_dominating')
-  if sd is None:
-    raise AnalysisError('is_pareto_optimal_against: strict_dominating not found')
-  pred = parse_pred(sd, role, env)
-  # any(point > against) == not all(point <= against): "not weakly dominated by that point"
-  ok = pred.table == {k: (not k[0]) for k in DOM}
-  # strict arm: strict_dominating | all(point == against)  == not dominated
-  strict_arm = None
-  for n in ast.walk(f.node):
-    if isinstance(n, ast.If) and 'strict' in unparse(n.test, 0) and n is not None:
-      for x in ast.walk(n.test):
-        if isinstance(x, ast.Call) and (dotted(x.func) or '').endswith('.all') and x.args and isinstance(x.args[0], ast.BinOp):
-          strict_arm = x.args[0]
-  p2 = parse_pred(strict_arm, role, env) if strict_arm is not None else Pred(None)
-  ctx.check(ok and p2.is_not_dom(), 'R3', 'Naive.is_pareto_optimal_against predicates', f.node,
-            'non-strict arm: not weakly dominated; strict arm: not (strictly) dominated',
-            f'predicates are {pred.table} / {p2.table}: not the documented (weak / strict) non-domination',
-            construct='naive-against', func=f.qualname)
+  flag = 'strict'
+  # per row of `against` (B) and candidate `point` (A): the candidate becomes optimal iff all rows satisfy ROWPRED.
+  # expected ROWPRED: non-strict: not weakly dominated (not p); strict: not dominated (not (p and not q))
+  want = {False: {k: (not k[0]) for k in DOM}, True: {k: not v for k, v in DOM.items()}}
+  for val in (False, True):
+    g = flag_cfg(f.node, flag, val)
+    rd = flow.ReachingDefs(g)
+    live = g.reachable([g.entry], include_starts=True)
+    loopv = None
+    for n in ast.walk(f.node):
+      if isinstance(n, ast.For) and isinstance(n.target, ast.Tuple) and len(n.target.elts) == 2 and isinstance(n.target.elts[1], ast.Name):
+        loopv = n.target.elts[1].id
+    role = lambda x: 'A' if unparse(x, 0) == loopv else 'B' if unparse(x, 0) == other else None
+    rowpreds: List[Pred] = []
+    for n in g.nodes:
+      if n not in live or n.kind != 'stmt' or not isinstance(n.ast, ast.Assign):
+        continue
+      tg = n.ast.targets[0]
+      if not (isinstance(tg, ast.Subscript) and 'is_optimal' in unparse(tg.value, 0)):
+        continue
+      val_e = n.ast.value
+      conds: List[ast.AST] = []
+      if isinstance(val_e, ast.Constant) and val_e.value is True:
+        # optimal under the controlling conditions of this store
+        for c_, pol in g.controlling_conditions(n):
+          if not pol:
+            continue
+          conds.append(c_)
+      elif isinstance(val_e, ast.Constant):
+        continue
+      else:
+        conds.append(val_e)
+      for c_ in conds:
+        e = simplify_bool(unfold(c_, n, g, rd, (flag, val)))
+        if isinstance(e, ast.Constant):
+          continue
+        red = reduction(e)
+        if red is None or red[0] != 'all':
+          if any(isinstance(x, ast.Name) and x.id in (loopv, other) for x in ast.walk(e)):
+            raise AnalysisError(f'is_pareto_optimal_against: condition `{unparse(e, 70)}` is not an all() over the rows of `{other}`')
+          continue
+        rowpreds.append(parse_pred(red[1], role, {}))
+    if not rowpreds:
+      raise AnalysisError(f'is_pareto_optimal_against: no store making a point optimal found (strict={val})')
+    # the point is optimal if ANY of the conditions holds; with pointwise implication the weakest row predicate decides
+    tabs = [p_.table for p_ in rowpreds]
+    weakest = None
+    if all(t is not None for t in tabs):
+      for t in tabs:
+        if all(all((not o[k]) or t[k] for k in DOM) for o in tabs):
+          weakest = t
+    ctx.check(weakest == want[val], 'R3', f'Naive.is_pareto_optimal_against (strict={val})', f.node,
+              'optimal iff every row of `against` fails to ' + ('dominate' if val else 'weakly dominate') + ' the point',
+              f'row predicate truth table over (all(A<=B), all(B<=A)) is {weakest or tabs}, expected {want[val]}: dominated / tied points are classified wrongly',
+              construct=f'naive-against:{val}', func=f.qualname)
   # is_pareto_optimal: survivors q satisfy any(q > point) | all(q == point)  == q not dominated by point
-  g = ci.methods['is_pareto_optimal']
+  gm = ci.methods['is_pareto_optimal']
   expr = None
   lv = None
-  for n in ast.walk(g.node):
+  stn = None
+  for n in ast.walk(gm.node):
     if isinstance(n, ast.For) and isinstance(n.target, ast.Tuple):
       lv = n.target.elts[1].id
     if isinstance(n, ast.Assign) and isinstance(n.targets[0], ast.Subscript) and isinstance(n.value, ast.BinOp):
-      expr = n.value
+      expr, stn = n.value, n
   if expr is None:
     raise AnalysisError('is_pareto_optimal: update expression not found')
-  role2 = lambda x: 'B' if unparse(x, 0) == lv else 'A' if unparse(x, 0).startswith(g.params[1] + '[') else None
-  p3 = parse_pred(expr, role2, {})
-  _report(ctx, 'Naive.is_pareto_optimal survivor test', expr, g, p3, 'optimal')
+  g2 = cfgmod.CFG(gm.node)
+  rd2 = flow.ReachingDefs(g2)
+  e2 = unfold(expr, g2.node_of(stn), g2, rd2)
+  role2 = lambda x: 'B' if unparse(x, 0) == lv else 'A' if unparse(x, 0).startswith(gm.params[1] + '[') else None
+  p3 = parse_pred(e2, role2, {})
+  _report(ctx, 'Naive.is_pareto_optimal survivor test', expr, gm, p3, 'optimal')
 
 
 # ----------------------------------------------------------------------- R4
